@@ -365,8 +365,12 @@ def counting_cls(base):
             _vf_steps = 0
             _vf_limit = 20000
 
+            _vf_vdb_forced = 0
+
             def _rec_add_atom(self, *a, **kw):
                 self._vf_steps += 1
+                if len(a) > 2 and a[2] is self.livefs_dbs:
+                    self._vf_vdb_forced += 1  # a dependency cycle made the resolver retry this atom installed-only
                 if self._vf_steps > self._vf_limit:
                     raise StepLimit(f"more than {self._vf_limit} _rec_add_atom calls")
                 return base._rec_add_atom(self, *a, **kw)
@@ -435,7 +439,9 @@ def _dep_atom(rnd, names, profile, blocker=False, own=None):
     key = MISSING if miss else rnd.choice(names)
     if key == own and rnd.randrange(4):
         key = rnd.choice(names)  # dependencies on the package's own name: kept, but rarer
-    if profile == "mono":
+    if profile == "mono-cyclic":
+        op = _w(rnd, [("", 7), (">=", 1)])  # mostly the same plain atom everywhere: one atom, many requesters
+    elif profile.startswith("mono"):
         op = _w(rnd, [("", 5), (">=", 3)])
     elif blocker:
         op = _w(rnd, [("", 3), ("<", 4), ("<=", 1), (">=", 1), ("=", 1), (">", 1)])
@@ -444,7 +450,7 @@ def _dep_atom(rnd, names, profile, blocker=False, own=None):
     s = key
     if op:
         s = f"{op}{key}-{rnd.choice(VERS)}"
-    if rnd.randrange(5) == 0:
+    if rnd.randrange(12 if profile == "mono-cyclic" else 5) == 0:
         s += ":" + rnd.choice(("0", "0", "1"))
     if blocker:
         s = rnd.choice(("!", "!", "!!")) + s
@@ -453,7 +459,7 @@ def _dep_atom(rnd, names, profile, blocker=False, own=None):
 
 def _dep_clause(rnd, names, profile, own=None):
     k = rnd.randrange(10)
-    if k <= 1 and profile != "mono":
+    if k <= 1 and not profile.startswith("mono"):
         return [_dep_atom(rnd, names, profile, blocker=True, own=own)]
     if k <= 4:
         alts = []
@@ -474,19 +480,31 @@ class _Self:
 
 def _pkg_deps(rnd, names, profile, density, own=None, ver=None, slot=None):
     n = _w(rnd, [(0, 3), (1, 4), (2, 3), (3, 1)]) if density else _w(rnd, [(0, 6), (1, 3), (2, 1)])
+    cyclic = profile == "mono-cyclic"
+    if cyclic:
+        n = _w(rnd, [(1, 3), (2, 4), (3, 2)])
     deps = {}
     for _ in range(n):
-        if profile == "mono":
+        if cyclic:
+            cls = _w(rnd, [("DEPEND", 4), ("BDEPEND", 2), ("RDEPEND", 3), ("IDEPEND", 1), ("PDEPEND", 1)])
+        elif profile.startswith("mono"):
             cls = _w(rnd, [("RDEPEND", 4), ("PDEPEND", 2), ("DEPEND", 2), ("BDEPEND", 1), ("IDEPEND", 1)])
         else:
             cls = _w(rnd, [("RDEPEND", 4), ("DEPEND", 3), ("PDEPEND", 2), ("BDEPEND", 2), ("IDEPEND", 2)])
         pool = names
-        if profile == "mono" and cls != "PDEPEND":
+        if profile.startswith("mono") and cls != "PDEPEND":
             # acyclic except through PDEPEND: only names ranked after the package's own
             pool = names[names.index(own) + 1:] if own in names else names
             if not pool:
                 continue
         cl = _dep_clause(rnd, pool, profile, own)
+        if profile.startswith("mono") and cls != "PDEPEND" and own in names and rnd.randrange(3) < (2 if cyclic else 1):
+            # a back edge (own or lower-ranked name) as an extra alternative of an any-of group that keeps >=1
+            # forward alternative: dependency cycles - build-time ones included - that a resolver can get out of
+            lower = names[: names.index(own) + 1]
+            back = _dep_atom(rnd, [own] if cyclic and rnd.randrange(2) else lower, profile)
+            if back not in cl:
+                cl.insert(0 if cyclic and rnd.randrange(3) else rnd.randrange(len(cl) + 1), back)
         if ver is not None and len(cl) == 1 and ratom(cl[0]).blocks and ratom(cl[0]).match(_Self(own, ver, slot)):
             continue  # a package that blocks itself is not a well-formed package
         deps.setdefault(cls, [])
@@ -497,10 +515,15 @@ def _pkg_deps(rnd, names, profile, density, own=None, ver=None, slot=None):
 
 def gen_world(seed: int, profile="full", max_pkgs=12):
     """profile 'full': everything the C15 quantifier lists. profile 'mono' (C16): only unversioned or `>=` non-blocker
-    dependencies (the highest version of a slot satisfies every dependency any version satisfies), and no dependency
-    cycles except through PDEPEND (the resolver accepts other cycles only under context-dependent conditions)."""
+    dependencies (the highest version of a slot satisfies every dependency any version satisfies); names are ranked
+    and a DEPEND/BDEPEND/RDEPEND/IDEPEND clause always has an alternative on a higher-ranked name, so cycles exist
+    only through PDEPEND or through extra any-of alternatives pointing back (the resolver accepts cycles only under
+    context-dependent conditions; with a forward alternative in every clause it can always get out of one).
+    profile 'mono-cyclic': the same rules with more build-time clauses and more back-pointing alternatives."""
     rnd = random.Random(seed)
     nnames = rnd.randint(1, 5) if rnd.randrange(8) == 0 else rnd.randint(2, 5)
+    if profile == "mono-cyclic":
+        nnames = rnd.randint(4, 5)
     names = list(NAMES[:nnames])
     density = rnd.randrange(4) != 0
     src, src2, vdb = [], [], []
@@ -508,7 +531,7 @@ def gen_world(seed: int, profile="full", max_pkgs=12):
     two_src = rnd.randrange(6) == 0
     for key in names:
         multislot = rnd.randrange(4) == 0
-        nv = _w(rnd, [(1, 3), (2, 4), (3, 2)])
+        nv = _w(rnd, [(1, 6), (2, 3), (3, 1)]) if profile == "mono-cyclic" else _w(rnd, [(1, 3), (2, 4), (3, 2)])
         vers = sorted(rnd.sample(VERS, nv))
         slot_of = {v: (rnd.choice(("0", "1")) if multislot else "0") for v in VERS}
         for v in vers:
@@ -551,7 +574,7 @@ def gen_world(seed: int, profile="full", max_pkgs=12):
             t = key
         elif k <= 7:
             t = f">={key}-{rnd.choice(VERS)}"
-        elif k == 8 and profile != "mono":
+        elif k == 8 and not profile.startswith("mono"):
             t = f"{rnd.choice(('=', '<', '~', '<='))}{key}-{rnd.choice(VERS)}"
         else:
             t = f"{key}:{rnd.choice(('0', '0', '1'))}"
